@@ -136,6 +136,15 @@ int main(int argc, char **argv) {
     if (!strcmp(tool, "cc") || !strcmp(tool, "c++") || !strcmp(tool, "gcc") || !strcmp(tool, "g++"))
         return compiler(tool, argc, argv);
     if (!strcmp(tool, "ar")) return archiver(argc, argv);
+    if (!strcmp(tool, "clangw")) {
+        int build = 0;
+        for (int i = 1; i < argc; i++)
+            if (!strcmp(argv[i], "-c") || !strcmp(argv[i], "-o")) build = 1;
+        if (build) log_invocation(tool, argc, argv);
+        argv[0] = (char *)"clang";
+        execv("/usr/bin/clang", argv);
+        perror("stub: exec"); return 127;
+    }
     if (!strcmp(tool, "gccw") || !strcmp(tool, "g++w")) {
         /* logging wrapper around the real compiler (C07) */
         int build = 0;
